@@ -910,12 +910,14 @@ class ExprTuple(Expr):
     """Whether the tuple is implicit (e.g. without parentheses in a subscript's slice)."""
 
     def iterate(self, *, flat: bool = True) -> Iterator[str | Expr]:
-        if not self.implicit:
+        # An empty tuple cannot be written without parentheses.
+        implicit = self.implicit and bool(self.elements)
+        if not implicit:
             yield "("
         yield from _join(self.elements, ", ", flat=flat, precedence=_PREC_TEST)
         if len(self.elements) == 1:
             yield ","
-        if not self.implicit:
+        if not implicit:
             yield ")"
 
 
